@@ -38,26 +38,26 @@ theorem hop_wrap (vf : Err → Str) (id : Ident) (k : WrapKind) (c : Err) (path 
   | withDomain dom =>
     refine ⟨.wrap path (.withDomain dom) c', ?_, ?_, ?_⟩
     · simp [encode, decode, hd, typeKey, Full_knows, detOf, buildWrap, decodeHid, layerDetails, extractPrefix_self, text, wrapText]
-    · simp [shape, text, wrapText, hs, ht]
+    · simp [shape, label, storedMark, isSigOf, isMultiNode, detOf, text, wrapText, hs, ht]
     · simp [stable, wrapStable, hst]
   | withContext tags red =>
     simp [wrapStable] at h
     refine ⟨.wrap path (.withContext tags (some (layerDetails Full vf (.wrap id (.withContext tags red) c)))) c', ?_, ?_, ?_⟩
     · simp [encode, decode, hd, typeKey, Full_knows, detOf, buildWrap, decodeHid, h]
-    · simp [shape, text, wrapText, hs, ht]
+    · simp [shape, label, storedMark, isSigOf, isMultiNode, detOf, text, wrapText, hs, ht]
     · simp [stable, wrapStable, hst, h]
   | fmtWrapError msg =>
     simp [wrapStable] at h
     have hr := extract_reassemble msg (text c) h
     refine ⟨.wrap path (.opaqueWrapper (extractPrefix msg (text c)).1 (detOf Full (.wrap id (.fmtWrapError msg) c) (layerDetails Full vf (.wrap id (.fmtWrapError msg) c)) .none) (extractPrefix msg (text c)).2 []) c', ?_, ?_, ?_⟩
     · simp [encode, decode, hd, typeKey, Full_knows, detOf, buildWrap, decodeHid, text, wrapText]
-    · simp [shape, text, hs, ht, wrapText]; exact hr
+    · simp [shape, label, storedMark, isSigOf, isMultiNode, detOf, text, hs, ht, wrapText]; exact hr
     · simp [stable, wrapStable, hst, detOf]
   | opaqueWrapper p d mt hid =>
     simp [wrapStable] at h
     refine ⟨.wrap path (.opaqueWrapper p d mt hid) c', ?_, ?_, ?_⟩
     · simp [encode, decode, hd, Full_knows, buildWrap, h]
-    · simp [shape, text, wrapText, hs, ht]
+    · simp [shape, label, storedMark, isSigOf, isMultiNode, detOf, text, wrapText, hs, ht]
     · simp [stable, wrapStable, hst, h]
   | user u msg =>
     simp [wrapStable] at h
@@ -68,21 +68,21 @@ theorem hop_wrap (vf : Err → Str) (id : Ident) (k : WrapKind) (c : Err) (path 
     · simp [h0] at hsty
       refine ⟨.wrap path (.opaqueWrapper msg (detOf Full (.wrap id (.user u msg) c) (layerDetails Full vf (.wrap id (.user u msg) c)) .none) mtPrefix []) c', ?_, ?_, ?_⟩
       · simp [encode, decode, hd, typeKey, Full_knows, detOf, buildWrap, decodeHid, htm, hcl, text, wrapText, h0, extractPrefix_pfx]
-      · simp [shape, text, wrapText, hs, ht, h0, mtPrefix, mtFull, hsty]
+      · simp [shape, label, storedMark, isSigOf, isMultiNode, detOf, text, wrapText, hs, ht, h0, mtPrefix, mtFull, hsty]
       · simp [stable, wrapStable, hst, htm, hcl, detOf]
     · by_cases h1 : u.style = 1
       · simp [h0, h1] at hsty
         have hr := extract_reassemble msg (text c) hsty
         refine ⟨.wrap path (.opaqueWrapper (extractPrefix msg (text c)).1 (detOf Full (.wrap id (.user u msg) c) (layerDetails Full vf (.wrap id (.user u msg) c)) .none) (extractPrefix msg (text c)).2 []) c', ?_, ?_, ?_⟩
         · simp [encode, decode, hd, typeKey, Full_knows, detOf, buildWrap, decodeHid, htm, hcl, text, wrapText, h0, h1]
-        · simp [shape, text, hs, ht, wrapText, h0, h1]; exact hr
+        · simp [shape, label, storedMark, isSigOf, isMultiNode, detOf, text, hs, ht, wrapText, h0, h1]; exact hr
         · simp [stable, wrapStable, hst, htm, hcl, detOf]
       · refine ⟨.wrap path (.opaqueWrapper [] (detOf Full (.wrap id (.user u msg) c) (layerDetails Full vf (.wrap id (.user u msg) c)) .none) mtPrefix []) c', ?_, ?_, ?_⟩
         · simp [encode, decode, hd, typeKey, Full_knows, detOf, buildWrap, decodeHid, htm, hcl, text, wrapText, h0, h1, extractPrefix_self]
-        · simp [shape, text, wrapText, hs, ht, h0, h1, mtPrefix, mtFull]
+        · simp [shape, label, storedMark, isSigOf, isMultiNode, detOf, text, wrapText, hs, ht, h0, h1, mtPrefix, mtFull]
         · simp [stable, wrapStable, hst, htm, hcl, detOf]
   | _ =>
-    simp [encode, decode, hd, typeKey, Full_knows, Full_arch, detOf, buildWrap, decodeHid, decodeList, shape, text, stable,
+    simp [encode, decode, hd, typeKey, Full_knows, Full_arch, detOf, buildWrap, decodeHid, decodeList, shape, label, storedMark, isSigOf, isMultiNode, text, stable,
       wrapStable, wrapText, hs, ht, hst, extractPrefix_self, extractPrefix_pfx, mtPrefix, mtFull] at h ⊢
 
 theorem hop_leaf (vf : Err → Str) (id : Ident) (k : LeafKind) (path : List Nat)
@@ -99,7 +99,7 @@ theorem hop_leaf (vf : Err → Str) (id : Ident) (k : LeafKind) (path : List Nat
         simp at h2
         cases hp : d.pay <;> simp_all
       | cons a r => simp
-    · simp [shape, text, leafText]
+    · simp [shape, label, storedMark, isSigOf, isMultiNode, detOf, text, leafText]
     · simp [stable, leafStable, h1, h2]
   | user u msg =>
     simp [leafStable] at h
@@ -107,10 +107,10 @@ theorem hop_leaf (vf : Err → Str) (id : Ident) (k : LeafKind) (path : List Nat
     have htm := tm_user_leaf id u msg h
     refine ⟨.leaf path (.opaqueLeaf msg (detOf Full (.leaf id (.user u msg)) (layerDetails Full vf (.leaf id (.user u msg))) .none) []), ?_, ?_, ?_⟩
     · simp [encode, decode, typeKey, Full_knows, detOf, buildLeaf, decodeList, htm, hcl, text, leafText]
-    · simp [shape, text, leafText]
+    · simp [shape, label, storedMark, isSigOf, isMultiNode, detOf, text, leafText]
     · simp [stable, leafStable, detOf, htm, hcl]
   | _ =>
-    simp [encode, decode, typeKey, Full_knows, Full_arch, detOf, buildLeaf, decodeHid, decodeList, shape, text, stable,
+    simp [encode, decode, typeKey, Full_knows, Full_arch, detOf, buildLeaf, decodeHid, decodeList, shape, label, storedMark, isSigOf, isMultiNode, text, stable,
       leafStable, leafText] at h ⊢
 
 theorem hop_barrier (vf : Err → Str) (id : Ident) (m : RStr) (hd : Err) (path : List Nat)
@@ -119,7 +119,7 @@ theorem hop_barrier (vf : Err → Str) (id : Ident) (m : RStr) (hd : Err) (path 
   obtain ⟨c', hd', hs, hst⟩ := hc
   refine ⟨.barrier path m c', ?_, ?_, ?_⟩
   · simp [encode, decode, typeKey, Full_knows, detOf, buildLeaf, decodeHid, decodeList, hd']
-  · simp [shape, text]
+  · simp [shape, label, storedMark, isSigOf, isMultiNode, text]
   · simp [stable, hst]
 
 theorem hop_second (vf : Err → Str) (id : Ident) (c s : Err) (path : List Nat)
@@ -131,7 +131,7 @@ theorem hop_second (vf : Err → Str) (id : Ident) (c s : Err) (path : List Nat)
   have ht : text c' = text c := text_eq_of_shape hs
   refine ⟨.second path c' s', ?_, ?_, ?_⟩
   · simp [encode, decode, typeKey, Full_knows, detOf, buildWrap, decodeHid, hd, hd2]
-  · simp [shape, text, hs, ht]
+  · simp [shape, label, storedMark, isSigOf, isMultiNode, detOf, text, hs, ht]
   · simp [stable, hst, hst2]
 
 theorem shapeL_length : ∀ {a b : List Err}, shapeL a = shapeL b → a.length = b.length
@@ -149,80 +149,47 @@ theorem hop_multi (vf : Err → Str) (id : Ident) (k : MultiKind) (cs : List Err
   obtain ⟨cs', hd, hs, hst⟩ := hc
   have ht : textList cs' = textList cs := textList_eq_of_shapeL hs
   have hl : cs'.length = cs.length := shapeL_length hs
+  simp only [multiStable, Bool.and_eq_true, decide_eq_true_eq] at h
+  obtain ⟨hn, h⟩ := h
+  have hl' : cs'.length ≠ 0 := by rw [hl]; exact hn
+  obtain ⟨a, r, hcs⟩ : ∃ a r, cs' = a :: r := by
+    cases cs' with
+    | nil => simp at hl'
+    | cons a r => exact ⟨a, r, rfl⟩
   cases k with
   | join =>
-    simp [multiStable] at h
-    have hne : cs' ≠ [] := by
-      intro h0; rw [h0] at hl; simp at hl; exact h (List.eq_nil_of_length_eq_zero hl.symm)
     refine ⟨.multi path .join cs', ?_, ?_, ?_⟩
-    · simp [encode, decode, typeKey, Full_knows, detOf, buildLeaf, decodeHid, hd]
-    · simp [shape, text, multiText, hs, ht]
-    · simp [stable, multiStable, hst, hne]
+    · simp [encode, decode, typeKey, Full_knows, detOf, buildLeaf, decodeHid, hd, hcs]
+    · simp [shape, label, storedMark, isSigOf, isMultiNode, text, multiText, hs, ht]
+    · simp [stable, multiStable, hst, hl']
   | opaqueLeafCauses msg d hid =>
-    simp [multiStable] at h
+    simp at h
     obtain ⟨h1, h2⟩ := h
-    have hpay : (match hid, d.pay with
-        | [], Pay.testErr => some (Err.leaf path LeafKind.testErr)
-        | _, _ => (none : Option Err)) = none := by
+    refine ⟨.multi path (.opaqueLeafCauses msg d hid) cs', ?_, ?_, ?_⟩
+    · simp [encode, decode, Full_knows, buildLeaf, hd, hcs, h1]
       cases hid with
       | nil => simp at h2; cases hp : d.pay <;> simp_all
       | cons a r => simp
-    cases hcs : cs' with
-    | nil =>
-      refine ⟨.leaf path (.opaqueLeaf msg d hid), ?_, ?_, ?_⟩
-      · simp [encode, decode, Full_knows, buildLeaf, hd, hcs, h1]
-        cases hid with
-        | nil => simp at h2; cases hp : d.pay <;> simp_all
-        | cons a r => simp
-      · simp [shape, text, multiText, leafText, ← hs, hcs, shapeL]
-      · simp [stable, leafStable, h1, h2]
-    | cons a r =>
-      refine ⟨.multi path (.opaqueLeafCauses msg d hid) (a :: r), ?_, ?_, ?_⟩
-      · simp [encode, decode, Full_knows, buildLeaf, hd, hcs, h1]
-        cases hid with
-        | nil => simp at h2; cases hp : d.pay <;> simp_all
-        | cons a r => simp
-      · simp [shape, text, multiText, ← hs, hcs]
-      · simp [stable, multiStable, ← hcs, hst, h1, h2]
+    · simp [shape, label, storedMark, isSigOf, isMultiNode, text, multiText, hs]
+    · simp [stable, multiStable, hst, h1, h2, hl']
   | stdJoin =>
-    cases hcs : cs' with
-    | nil =>
-      refine ⟨.leaf path (.opaqueLeaf (text (.multi id .stdJoin cs)) (detOf Full (.multi id .stdJoin cs) (layerDetails Full vf (.multi id .stdJoin cs)) .none) []), ?_, ?_, ?_⟩
-      · simp [encode, decode, typeKey, Full_knows, detOf, buildLeaf, hd, hcs]
-      · simp [shape, text, multiText, leafText, ← hs, hcs, shapeL]
-      · simp [stable, leafStable, detOf]
-    | cons a r =>
-      refine ⟨.multi path (.opaqueLeafCauses (text (.multi id .stdJoin cs)) (detOf Full (.multi id .stdJoin cs) (layerDetails Full vf (.multi id .stdJoin cs)) .none) []) (a :: r), ?_, ?_, ?_⟩
-      · simp [encode, decode, typeKey, Full_knows, detOf, buildLeaf, hd, hcs]
-      · simp [shape, text, multiText, ← hs, hcs]
-      · simp [stable, multiStable, ← hcs, hst, detOf]
+    refine ⟨.multi path (.opaqueLeafCauses (text (.multi id .stdJoin cs)) (detOf Full (.multi id .stdJoin cs) (layerDetails Full vf (.multi id .stdJoin cs)) .none) []) cs', ?_, ?_, ?_⟩
+    · simp [encode, decode, typeKey, Full_knows, detOf, buildLeaf, hd, hcs]
+    · simp [shape, label, storedMark, isSigOf, isMultiNode, detOf, text, multiText, hs]
+    · simp [stable, multiStable, hst, detOf, hl']
   | fmtWrapErrors m =>
-    cases hcs : cs' with
-    | nil =>
-      refine ⟨.leaf path (.opaqueLeaf (text (.multi id (.fmtWrapErrors m) cs)) (detOf Full (.multi id (.fmtWrapErrors m) cs) (layerDetails Full vf (.multi id (.fmtWrapErrors m) cs)) .none) []), ?_, ?_, ?_⟩
-      · simp [encode, decode, typeKey, Full_knows, detOf, buildLeaf, hd, hcs]
-      · simp [shape, text, multiText, leafText, ← hs, hcs, shapeL]
-      · simp [stable, leafStable, detOf]
-    | cons a r =>
-      refine ⟨.multi path (.opaqueLeafCauses (text (.multi id (.fmtWrapErrors m) cs)) (detOf Full (.multi id (.fmtWrapErrors m) cs) (layerDetails Full vf (.multi id (.fmtWrapErrors m) cs)) .none) []) (a :: r), ?_, ?_, ?_⟩
-      · simp [encode, decode, typeKey, Full_knows, detOf, buildLeaf, hd, hcs]
-      · simp [shape, text, multiText, ← hs, hcs]
-      · simp [stable, multiStable, ← hcs, hst, detOf]
+    refine ⟨.multi path (.opaqueLeafCauses (text (.multi id (.fmtWrapErrors m) cs)) (detOf Full (.multi id (.fmtWrapErrors m) cs) (layerDetails Full vf (.multi id (.fmtWrapErrors m) cs)) .none) []) cs', ?_, ?_, ?_⟩
+    · simp [encode, decode, typeKey, Full_knows, detOf, buildLeaf, hd, hcs]
+    · simp [shape, label, storedMark, isSigOf, isMultiNode, detOf, text, multiText, hs]
+    · simp [stable, multiStable, hst, detOf, hl']
   | user u m =>
-    simp [multiStable] at h
+    simp at h
     have hcl : classify u.name = .other := by simp [userOK] at h; exact h.1
     have htm := tm_user_multi id u m cs h
-    cases hcs : cs' with
-    | nil =>
-      refine ⟨.leaf path (.opaqueLeaf (text (.multi id (.user u m) cs)) (detOf Full (.multi id (.user u m) cs) (layerDetails Full vf (.multi id (.user u m) cs)) .none) []), ?_, ?_, ?_⟩
-      · simp [encode, decode, typeKey, Full_knows, detOf, buildLeaf, hd, hcs, htm, hcl]
-      · simp [shape, text, multiText, leafText, ← hs, hcs, shapeL]
-      · simp [stable, leafStable, detOf, htm, hcl]
-    | cons a r =>
-      refine ⟨.multi path (.opaqueLeafCauses (text (.multi id (.user u m) cs)) (detOf Full (.multi id (.user u m) cs) (layerDetails Full vf (.multi id (.user u m) cs)) .none) []) (a :: r), ?_, ?_, ?_⟩
-      · simp [encode, decode, typeKey, Full_knows, detOf, buildLeaf, hd, hcs, htm, hcl]
-      · simp [shape, text, multiText, ← hs, hcs]
-      · simp [stable, multiStable, ← hcs, hst, detOf, htm, hcl]
+    refine ⟨.multi path (.opaqueLeafCauses (text (.multi id (.user u m) cs)) (detOf Full (.multi id (.user u m) cs) (layerDetails Full vf (.multi id (.user u m) cs)) .none) []) cs', ?_, ?_, ?_⟩
+    · simp [encode, decode, typeKey, Full_knows, detOf, buildLeaf, hd, hcs, htm, hcl]
+    · simp [shape, label, storedMark, isSigOf, isMultiNode, detOf, text, multiText, hs, htm]
+    · simp [stable, multiStable, hst, detOf, htm, hcl, hl']
 
 mutual
 /-- One hop between knowing processes: decoding succeeds, the visible tree and the
